@@ -111,6 +111,14 @@ impl Analyzer
 			scope.push(identifier.clone());
 		}
 
+		#[cfg(feature = "penne_verif")]
+		crate::verif_trace::emit(format!(
+			"{{\"ev\":\"cdecl\",\"line\":{},\"name\":\"{}\",\"dup\":{}}}",
+			identifier.location.line_number,
+			crate::verif_trace::esc(&identifier.name),
+			recoverable_error.is_some(),
+		));
+
 		if let Some(error) = recoverable_error
 		{
 			Err(error)
@@ -195,6 +203,15 @@ impl Analyzer
 			scope.push(identifier.clone());
 		}
 
+		#[cfg(feature = "penne_verif")]
+		crate::verif_trace::emit(format!(
+			"{{\"ev\":\"vdecl\",\"line\":{},\"name\":\"{}\",\"dup\":{},\"depth\":{}}}",
+			identifier.location.line_number,
+			crate::verif_trace::esc(&identifier.name),
+			recoverable_error.is_some(),
+			self.variable_stack.len(),
+		));
+
 		if let Some(error) = recoverable_error
 		{
 			Err(error)
@@ -218,6 +235,12 @@ impl Analyzer
 			Some(previous) => previous,
 			None =>
 			{
+				#[cfg(feature = "penne_verif")]
+				crate::verif_trace::emit(format!(
+					"{{\"ev\":\"vuse\",\"line\":{},\"name\":\"{}\",\"res\":\"undefined\",\"decl\":0}}",
+					identifier.location.line_number,
+					crate::verif_trace::esc(&identifier.name),
+				));
 				let error = Error::UndefinedVariable {
 					name: identifier.name,
 					location: identifier.location,
@@ -226,6 +249,26 @@ impl Analyzer
 			}
 		};
 		let resolution_id = previous_identifier.resolution_id;
+
+		#[cfg(feature = "penne_verif")]
+		crate::verif_trace::emit(format!(
+			"{{\"ev\":\"vuse\",\"line\":{},\"name\":\"{}\",\"res\":\"{}\",\"decl\":{}}}",
+			identifier.location.line_number,
+			crate::verif_trace::esc(&identifier.name),
+			if self.pruned_variables.contains_key(&resolution_id)
+			{
+				"skipped"
+			}
+			else if self.poisoned_variables.contains(&resolution_id)
+			{
+				"poisoned"
+			}
+			else
+			{
+				"ok"
+			},
+			previous_identifier.location.line_number,
+		));
 
 		if let Some(pruning) = self.pruned_variables.remove(&resolution_id)
 		{
@@ -617,6 +660,12 @@ impl Analyzer
 		// If the container already contains itself, we would have reported it.
 		if container.contained_ids.contains(&container_id)
 		{
+			#[cfg(feature = "penne_verif")]
+			crate::verif_trace::emit(format!(
+				"{{\"ev\":\"contain\",\"container\":\"{}\",\"containee\":\"{}\",\"res\":\"poisoned\"}}",
+				crate::verif_trace::esc(&name_of_container.name),
+				crate::verif_trace::esc(&name_of_containee.name),
+			));
 			return Err(Poison::Poisoned);
 		}
 
@@ -626,6 +675,12 @@ impl Analyzer
 		// then this is because `containee` contains `container`.
 		if container.contained_ids.contains(&container_id)
 		{
+			#[cfg(feature = "penne_verif")]
+			crate::verif_trace::emit(format!(
+				"{{\"ev\":\"contain\",\"container\":\"{}\",\"containee\":\"{}\",\"res\":\"cycle\"}}",
+				crate::verif_trace::esc(&name_of_container.name),
+				crate::verif_trace::esc(&name_of_containee.name),
+			));
 			let error = if let Some(name_of_member) = name_of_member
 			{
 				let name_of_structure = name_of_container.name.clone();
@@ -679,6 +734,14 @@ impl Analyzer
 			}
 		}
 
+		{
+			#[cfg(feature = "penne_verif")]
+			crate::verif_trace::emit(format!(
+				"{{\"ev\":\"contain\",\"container\":\"{}\",\"containee\":\"{}\",\"res\":\"ok\"}}",
+				crate::verif_trace::esc(&name_of_container.name),
+				crate::verif_trace::esc(&name_of_containee.name),
+			));
+			}
 		Ok(name_of_containee)
 	}
 
@@ -730,6 +793,20 @@ impl Analyzer
 				container.depth = Some(Err(Poison::Poisoned));
 			}
 		}
+		#[cfg(feature = "penne_verif")]
+		for container in &self.containers
+		{
+			crate::verif_trace::emit(format!(
+				"{{\"ev\":\"depth\",\"name\":\"{}\",\"structure\":{},\"d\":{}}}",
+				crate::verif_trace::esc(&container.identifier.name),
+				container.is_structure,
+				match &container.depth
+				{
+					Some(Ok(d)) => *d as i64,
+					_ => -1,
+				},
+			));
+		}
 	}
 
 	fn obtain_container_depth(
@@ -753,11 +830,21 @@ impl Analyzer
 	fn push_scope(&mut self)
 	{
 		self.variable_stack.push(Vec::new());
+		#[cfg(feature = "penne_verif")]
+		crate::verif_trace::emit(format!(
+			"{{\"ev\":\"vpush\",\"depth\":{}}}",
+			self.variable_stack.len(),
+		));
 	}
 
 	fn pop_scope(&mut self)
 	{
 		self.variable_stack.pop();
+		#[cfg(feature = "penne_verif")]
+		crate::verif_trace::emit(format!(
+			"{{\"ev\":\"vpop\",\"depth\":{}}}",
+			self.variable_stack.len(),
+		));
 	}
 
 	fn prepare_to_prune_at_goto(
@@ -773,6 +860,22 @@ impl Analyzer
 				layer.iter().map(|identifier| identifier.resolution_id)
 			}),
 		);
+		#[cfg(feature = "penne_verif")]
+		{
+			let mut lines: Vec<usize> = self
+				.variable_stack
+				.iter()
+				.flat_map(|layer| layer.iter().map(|x| x.location.line_number))
+				.collect();
+			lines.sort();
+			crate::verif_trace::emit(format!(
+				"{{\"ev\":\"vgoto\",\"line\":{},\"label\":\"{}\",\"target\":{},\"inscope\":{:?}}}",
+				location_of_goto.line_number,
+				crate::verif_trace::esc(&label.name),
+				label.resolution_id,
+				lines,
+			));
+		}
 		// When we prune, we can only retain the variables that were in scope
 		// for each of the goto statements.
 		self.unresolved_labels
@@ -810,6 +913,25 @@ impl Analyzer
 				let pruned = variables_in_layer.iter().filter(|x| {
 					!intersection_of_variables.contains(&x.resolution_id)
 				});
+				#[cfg(feature = "penne_verif")]
+				{
+					let mut lines: Vec<usize> = variables_in_layer
+						.iter()
+						.filter(|x| {
+							!intersection_of_variables
+								.contains(&x.resolution_id)
+						})
+						.map(|x| x.location.line_number)
+						.collect();
+					lines.sort();
+					crate::verif_trace::emit(format!(
+						"{{\"ev\":\"vprune\",\"line\":{},\"label\":\"{}\",\"id\":{},\"pruned\":{:?}}}",
+						label.location.line_number,
+						crate::verif_trace::esc(&label.name),
+						label.resolution_id,
+						lines,
+					));
+				}
 				for declaration in pruned
 				{
 					let id = declaration.resolution_id;
